@@ -654,11 +654,13 @@ void __tsan_func_exit(void) {
       sp(0, 0);                                           \
     }                                                     \
   }
-#define POSTW()   \
-  if (_c >= 0) {  \
-    epoch++;      \
-    sp(0, 1);     \
-    in_rt = 0;    \
+/* `changed` = the operation modified the cell: a value-preserving RMW (xchg of the same
+ * value, failed CAS, fetch_add 0) is a poll, not progress */
+#define POSTW(changed)      \
+  if (_c >= 0) {            \
+    if (changed) epoch++;   \
+    sp(0, (changed) != 0);  \
+    in_rt = 0;              \
   }
 #define POSTR() \
   if (_c >= 0) in_rt = 0;
@@ -685,7 +687,7 @@ void __tsan_func_exit(void) {
       e->a = (uint64_t)v;                                                                          \
       e->d = (uint64_t)mo;                                                                         \
     }                                                                                              \
-    POSTW();                                                                                       \
+    POSTW(1);                                                                                      \
   }                                                                                                \
   T __tsan_atomic##N##_exchange(volatile T* a, T v, int mo) {                                      \
     (void)mo;                                                                                      \
@@ -697,7 +699,7 @@ void __tsan_func_exit(void) {
       e->b = (uint64_t)v;                                                                          \
       e->d = (uint64_t)mo;                                                                         \
     }                                                                                              \
-    POSTW();                                                                                       \
+    POSTW(o != v);                                                                                 \
     return o;                                                                                      \
   }                                                                                                \
   DEF_RMW(N, T, fetch_add, K_FADD)                                                                 \
@@ -719,7 +721,7 @@ void __tsan_func_exit(void) {
       e->d = (uint64_t)mo;                                                                         \
       e->ok = ok;                                                                                  \
     }                                                                                              \
-    POSTW();                                                                                       \
+    POSTW(ok);                                                                                     \
     return ok;                                                                                     \
   }                                                                                                \
   int __tsan_atomic##N##_compare_exchange_weak(volatile T* a, T* exp, T des, int mo, int fmo) {    \
@@ -741,7 +743,7 @@ void __tsan_func_exit(void) {
       e->b = (uint64_t)v;                                      \
       e->d = (uint64_t)mo;                                     \
     }                                                          \
-    POSTW();                                                   \
+    POSTW(v != 0);                                             \
     return o;                                                  \
   }
 
@@ -766,7 +768,9 @@ void __tsan_atomic_signal_fence(int mo) { (void)mo; }
 void vr_fence(int kind) {
   if (my_tid < 0 || in_rt) return;
   complete_pending(my_tid);
-  if (!envl("VR_LOGFENCE", 0) && 0) return;
+  /* a barrier is a natural scheduling point; it also keeps retry loops that touch no
+   * registered cell (e.g. the hazard-pointer validation loops) from monopolising the baton */
+  sp(0, 0);
   ev_t* e = newev(K_FENCE, -1, 0, 0);
   e->a = kind;
 }
@@ -927,6 +931,11 @@ int epoll_wait(int epfd, struct epoll_event* evs_, int maxevents, int timeout) {
     if (allspin) {
       idle_streak = 0;
       idle_ticks_pending++;
+      {
+        /* every kernel thread has been idle for several poll rounds: virtual time advances */
+        ev_t* e = newev(K_NOTE, -1, 0, 0);
+        e->note = strdup("tick");
+      }
       vr_tick(1);
       if (++allspin_streak > hang_limit) vr_finish(done_flag ? "OK" : "HANG");
       uint64_t keep = allspin_streak;
